@@ -1499,9 +1499,16 @@ class Settle:
     def clean(self) -> bool:
         return len(self.ctx.findings) == self.snap[0] and len(self.ctx.undecided) == self.snap[1]
 
-    def withdraw(self):
+    def withdraw(self, keep=None):
+        """keep(text) -> True for reports (by function name / site text) that the models do not speak about and that therefore stay"""
         ctx = self.ctx
-        del ctx.findings[self.snap[0]:]
-        del ctx.undecided[self.snap[1]:]
+        keep = keep or (lambda text: False)
+        ctx.findings[self.snap[0]:] = [f for f in ctx.findings[self.snap[0]:] if keep(f.func)]
+        ctx.undecided[self.snap[1]:] = [u for u in ctx.undecided[self.snap[1]:] if keep(u.site)]
         for k in list(ctx.instances):
-            del ctx.instances[k][self.snap[2].get(k, 0):]
+            n0 = self.snap[2].get(k, 0)
+            ctx.instances[k][n0:] = [i for i in ctx.instances[k][n0:] if i.get("verdict") == "PASS" or keep(i.get("site", ""))]
+
+    def clean_except(self, keep) -> bool:
+        ctx = self.ctx
+        return not [f for f in ctx.findings[self.snap[0]:] if not keep(f.func)] and not [u for u in ctx.undecided[self.snap[1]:] if not keep(u.site)]
